@@ -338,3 +338,137 @@ Proof.
   destruct R1 as [E1 L1]. destruct R2 as [E2 L2]. destruct R3 as [E3 L3]. destruct R4 as [E4 L4]. destruct R5 as [E5 L5].
   exists vb, cb. subst. repeat split; try assumption; reflexivity.
 Qed.
+
+(* ---- the coins that the loop loads are well-formed objects (needed to speak about their serialization) ---- *)
+Lemma bytes_ok_suffix pre r : bytes_ok (pre ++ r) -> bytes_ok r.
+Proof. intros H. apply bytes_ok_app in H. tauto. Qed.
+
+Lemma wrap64_range x : INT64_MIN <= wrap64 x <= INT64_MAX.
+Proof.
+  unfold wrap64, wraps, INT64_MIN, INT64_MAX. change (2 ^ 64) with 18446744073709551616. change (2 ^ (64 - 1)) with 9223372036854775808.
+  pose proof (Z.mod_pos_bound x 18446744073709551616 ltac:(lia)) as B. cbv zeta.
+  destruct (x mod 18446744073709551616 <? 9223372036854775808) eqn:E; lia.
+Qed.
+
+Lemma some_inj {A} (a b : A) : Some a = Some b -> a = b.
+Proof. intros H. inversion H. reflexivity. Qed.
+Lemma len65 a b : length (4%N :: be_bytes 32 a ++ be_bytes 32 b) = 65%nat.
+Proof. cbn [length]. rewrite app_length. unfold be_bytes. rewrite !rev_length, !le_bytes_length. reflexivity. Qed.
+
+Lemma secp_decompress_len c pk : secp_decompress c = Some pk -> length pk = 65%nat.
+Proof.
+  unfold secp_decompress. destruct c as [|h xs]; [discriminate|].
+  destruct (_ && _); [|discriminate]. destruct (_ <? _); [|discriminate]. destruct (_ =? _); [|discriminate].
+  intros H. apply some_inj in H. rewrite <- H. apply len65.
+Qed.
+
+Section LoadedWf.
+  Variable ec : list N -> option (list N).
+  Hypothesis ec_len : forall c pk, ec c = Some pk -> length pk = 65%nat.
+
+  Lemma read_varint_ok w s v r : varint_width_ok w -> bytes_ok s -> read_varint w s = Ok v r -> 0 <= v <= 2 ^ w - 1 /\ bytes_ok r.
+  Proof.
+    intros W B H. destruct (varint_canon w s v r W B H) as [R [enc [_ E]]]. split; [exact R|]. subst s. eapply bytes_ok_suffix; eassumption.
+  Qed.
+
+  Lemma read_bytes_ok n s b r : bytes_ok s -> read_bytes n s = Ok b r -> bytes_ok r /\ length b = n.
+  Proof. intros B H. apply read_bytes_inv in H. destruct H as [-> L]. split; [eapply bytes_ok_suffix; eassumption|exact L]. Qed.
+
+  Lemma read_bytes_z_ok n s b r : bytes_ok s -> read_bytes_z n s = Ok b r -> bytes_ok r /\ Z.of_nat (length b) <= Z.max 0 n.
+  Proof.
+    unfold read_bytes_z. destruct (n <=? Z.of_nat (length s)); [|discriminate]. intros B H. apply read_bytes_ok in H; [|exact B].
+    destruct H as [B' L]. split; [exact B'|]. rewrite L. lia.
+  Qed.
+
+  Lemma decompress_script_len nSize vch sc : decompress_script ec nSize vch = Some sc -> (length sc <= 67)%nat.
+  Proof.
+    unfold decompress_script.
+    destruct (nSize =? 0); [intros H; apply some_inj in H; rewrite <- H; repeat (cbn [app length] || rewrite app_length || rewrite firstn_length); lia|].
+    destruct (nSize =? 1); [intros H; apply some_inj in H; rewrite <- H; repeat (cbn [app length] || rewrite app_length || rewrite firstn_length); lia|].
+    destruct ((nSize =? 2) || (nSize =? 3)); [intros H; apply some_inj in H; rewrite <- H; repeat (cbn [app length] || rewrite app_length || rewrite firstn_length); lia|].
+    destruct ((nSize =? 4) || (nSize =? 5)); [|discriminate].
+    destruct (ec _) as [pk|] eqn:E; [|discriminate]. apply ec_len in E.
+    intros H; apply some_inj in H; rewrite <- H. repeat (cbn [app length] || rewrite app_length). rewrite E. lia.
+  Qed.
+
+  Lemma unser_script_ok s sc r : bytes_ok s -> unser_script ec [] s = Ok sc r -> bytes_ok r /\ Z.of_nat (length sc) <= MAX_SIZE.
+  Proof.
+    intros B. unfold unser_script. destruct (read_varint 32 s) as [nSize s1|e] eqn:R; [|discriminate]. cbn [bind].
+    destruct (read_varint_ok 32 s nSize s1 (or_introl eq_refl) B R) as [_ B1].
+    rewrite max_size_value.
+    destruct (nSize <? N_SPECIAL_SCRIPTS).
+    - destruct (read_bytes (special_script_size nSize) s1) as [vch s2|e] eqn:R2; [|discriminate]. cbn [bind].
+      destruct (read_bytes_ok _ _ _ _ B1 R2) as [B2 _].
+      destruct (decompress_script ec nSize vch) as [sc'|] eqn:D; intros H; inversion H; subst.
+      + split; [exact B2|]. apply decompress_script_len in D. lia.
+      + split; [exact B2|]. cbn [length]. lia.
+    - destruct (_ >? MAX_SCRIPT_SIZE) eqn:C.
+      + destruct (read_bytes_z _ s1) as [x s2|e] eqn:R2; [|discriminate]. cbn [bind].
+        destruct (read_bytes_z_ok _ _ _ _ B1 R2) as [B2 _].
+        intros H. inversion H; subst. split; [exact B2|]. cbn [app length]. lia.
+      + intros H. destruct (read_bytes_z_ok _ _ _ _ B1 H) as [B2 L]. split; [exact B2|].
+        assert (X : MAX_SCRIPT_SIZE = 10000) by reflexivity. lia.
+  Qed.
+
+  Lemma unser_coin_ok s c r : bytes_ok s -> unser_coin ec [] s = Ok c r ->
+    bytes_ok r /\ 0 <= c_height c < 2 ^ 31 /\ INT64_MIN <= c_value c <= INT64_MAX /\ Z.of_nat (length (c_script c)) <= MAX_SIZE.
+  Proof.
+    intros B. unfold unser_coin. destruct (read_varint 32 s) as [code s1|e] eqn:R; [|discriminate]. cbn [bind].
+    destruct (read_varint_ok 32 s code s1 (or_introl eq_refl) B R) as [RC B1].
+    unfold unser_txout. destruct (read_varint 64 s1) as [v s2|e] eqn:R2; [|discriminate]. cbn [bind].
+    destruct (read_varint_ok 64 s1 v s2 (or_intror eq_refl) B1 R2) as [_ B2].
+    destruct (unser_script ec [] s2) as [sc s3|e] eqn:R3; [|discriminate]. cbn [bind].
+    destruct (unser_script_ok s2 sc s3 B2 R3) as [B3 LS].
+    intros H. inversion H; subst. cbn [c_height c_value c_script fst snd].
+    split; [exact B3|]. split; [|split; [apply wrap64_range|exact LS]].
+    rewrite Z.shiftr_div_pow2 by lia. change (2 ^ 1) with 2. change (2 ^ 32) with 4294967296 in RC. change (2 ^ 31) with 2147483648. lia.
+  Qed.
+
+  Lemma load_coins_wf fuel : forall bh count left processed grp s acc coins rest,
+    bytes_ok s -> (match grp with Some (txid, _) => length txid = 32%nat | None => True end) -> Forall ucoin_wf acc ->
+    load_coins ec fuel bh count left processed grp s acc = CDone coins rest -> Forall ucoin_wf coins.
+  Proof.
+    induction fuel as [|f IH]; intros bh count left processed grp s acc coins rest B HG WA H; cbn [load_coins] in H; [discriminate|].
+    destruct (match grp with Some (_, remaining) => 0 <? remaining | None => false end).
+    - destruct grp as [[txid remaining]|]; [|discriminate].
+      destruct (read_compact_size true s) as [n s1|e] eqn:R1; [|discriminate].
+      destruct (compact_size_canonical true s n s1 B R1) as [E1 _].
+      assert (B1 : bytes_ok s1) by (rewrite E1 in B; eapply bytes_ok_suffix; exact B).
+      destruct (unser_coin ec [] s1) as [c s2|e] eqn:R2; [|discriminate].
+      destruct (unser_coin_ok s1 c s2 B1 R2) as [B2 [Hh [Hv Hs]]].
+      destruct (_ || _); [discriminate|]. destruct (negb _); [discriminate|].
+      eapply IH; cycle 3; [exact H|exact B2|exact HG|].
+      constructor; [|exact WA]. unfold ucoin_wf. cbn [u_txid u_n u_coin].
+      assert (0 <= wrapu32 n <= UINT32_MAX).
+      { unfold wrapu32, wrapu, UINT32_MAX. change (2 ^ 32) with 4294967296. pose proof (Z.mod_pos_bound n 4294967296 ltac:(lia)). lia. }
+      repeat split; try assumption; try lia.
+    - destruct (left <=? 0).
+      + inversion H; subst. apply Forall_rev. exact WA.
+      + destruct (read_bytes 32 s) as [txid s1|e] eqn:R1; [|discriminate].
+        destruct (read_bytes_ok _ _ _ _ B R1) as [B1 L1].
+        destruct (read_compact_size true s1) as [per s2|e] eqn:R2; [|discriminate].
+        destruct (compact_size_canonical true s1 per s2 B1 R2) as [E2 _].
+        assert (B2 : bytes_ok s2) by (rewrite E2 in B1; eapply bytes_ok_suffix; exact B1).
+        destruct (per >? left); [discriminate|].
+        eapply IH; cycle 3; [exact H|exact B2|exact L1|exact WA].
+  Qed.
+
+  Lemma set_add_wf c l : ucoin_wf c -> Forall ucoin_wf l -> Forall ucoin_wf (set_add c l).
+  Proof.
+    intros Wc. induction l as [|x l IH]; intros W; cbn [set_add]; [constructor; [exact Wc|constructor]|].
+    inversion W; subst. destruct (op_eq c x); [exact W|]. destruct (op_lt c x); [constructor; assumption|].
+    constructor; [assumption|apply IH; assumption].
+  Qed.
+
+  Lemma coin_set_wf coins : Forall ucoin_wf coins -> Forall ucoin_wf (coin_set coins).
+  Proof.
+    unfold coin_set. assert (G : forall l acc, Forall ucoin_wf l -> Forall ucoin_wf acc -> Forall ucoin_wf (fold_left (fun s c => set_add c s) l acc)).
+    { induction l as [|c l IH]; intros acc W WA; [exact WA|]. inversion W; subst. cbn [fold_left]. apply IH; [assumption|apply set_add_wf; assumption]. }
+    intros W. apply G; [exact W|constructor].
+  Qed.
+
+  Lemma load_all_wf bh count s coins rest : bytes_ok s -> load_all ec bh count s = CDone coins rest -> Forall ucoin_wf (coin_set coins).
+  Proof.
+    intros B H. apply coin_set_wf. unfold load_all in H. eapply load_coins_wf; cycle 3; [exact H|exact B|exact I|constructor].
+  Qed.
+End LoadedWf.
